@@ -142,11 +142,38 @@ def run(ctx):
                     b[off] = v
                     raw_cases.append(('h%d_%d.hfe' % (off, v), bytes(b), ['--file', '@h%d_%d.hfe' % (off, v), 'cat'], 'header-field', ext2))
         if ext2 == '.mfm':
-            for (off, vals) in ((7, [0, 1, 255]), (8, [1, 255]), (9, [0, 2, 3, 255]), (14, [0, 3, 5]), (15, [0, 0x12, 0xFF]), (18, [0x80, 0xFF])):
+            for (off, vals) in ((7, [0, 1, 255]), (8, [1, 255]), (9, [0, 2, 3, 255]), (10, [0, 1, 255]), (11, [0, 255]), (12, [0, 1, 255]), (13, [0, 255]), (14, [0, 3, 5]), (15, [0, 0x12, 0xFF]), (18, [0x80, 0xFF])):
                 for v in vals:
                     b = bytearray(bdata2)
                     b[off] = v
                     raw_cases.append(('x%d_%d.mfm' % (off, v), bytes(b), ['--file', '@x%d_%d.mfm' % (off, v), 'cat'], 'header-field', ext2))
+        if ext2 == '.mfm':
+            # rpm / bit rate all-zero and all-ones, alone and together with a track entry that declares a huge size
+            for (rpm, rate) in ((b'\0\0', b'\0\0'), (b'\xff\xff', b'\xff\xff'), (b'\1\0', b'\xff\xff'), (b'\xff\xff', b'\1\0'), (b'\0\0', b'\xfa\0'), (b'\x2c\1', b'\0\0')):
+                for size in (None, 0x40000000, 0xFFFFFFFF, 0x00100001):
+                    b = bytearray(bdata2)
+                    b[10:12] = rpm
+                    b[12:14] = rate
+                    if size is not None:
+                        b[0x13 + 3:0x13 + 7] = size.to_bytes(4, 'little')
+                    nm = 'q%s_%s_%s.mfm' % (rpm.hex(), rate.hex(), size)
+                    raw_cases.append((nm, bytes(b), ['--file', '@' + nm, 'cat'], 'header-field', ext2))
+    # catalogues whose entries overrun the recorded sector count or the disc, and degenerate sector counts, under every command
+    for (tot, start, length) in ((400, 399, 0x300), (400, 400, 1), (400, 1023, 0x3FFFF), (10, 398, 0x200), (0, 2, 0x100), (2, 2, 1), (3, 2, 0x3FFFF), (1023, 1022, 0x200)):
+        for variant in ('dfs', 'wdfs'):
+            f0 = discs.AbsFile(0x24, b'A', False, 0, 0, start, b'', length=length)
+            f1 = discs.AbsFile(0x24, b'B', False, 0, 0, 5, b'xyz')
+            d = discs.AbsDisc(variant, 40, 10)
+            d.cats = [discs.AbsCat(b'OVERRUN', 0, 0, tot, [f0, f1])] + ([discs.AbsCat(b'', 0, 0, tot, [])] if variant == 'wdfs' else [])
+            img = d.encode(lambda n: bytes(n))
+            for hd in (0, 8):     # also with the HDFS bit set
+                b = bytearray(img)
+                b[256 + 6] |= hd
+                nm = 'o%d_%d_%d_%d%s.ssd' % (tot, start, length, hd, variant)
+                for cmd in CMDS:
+                    if cmd[0] == 'help':
+                        continue
+                    raw_cases.append((nm, bytes(b), ['--file', '@' + nm] + cmd, 'catalogue-overrun', '.ssd'))
     # flux tracks whose sectors are not 256 bytes long (size codes 0, 2, 3), in every position of the track
     for (nm, mfm) in (('z.hfe', False), ('z.mfm', True), ('w.hfe', True)):
         for sizes in ([1024, 256, 256], [256, 512, 256], [256, 256, 128], [1024], [512, 512], [128, 256], [128], [256, 1024]):
@@ -177,6 +204,13 @@ def run(ctx):
         argv = [r.choice(['cat', 'info', 'free', 'space', 'show-titles', 'dump-sector', 'sector-map', 'type', 'extract-files', 'bogus', 'help', '--help', '--file', '--drive', '-', '--'])] + \
                [r.choice(ODD_ARGS) for _ in range(r.below(4))]
         raw_cases.append((None, None, argv, 'no-image', ''))
+    # trailing garbage / damaged trailer after a valid gzip stream (the length field ISIZE is the last four bytes)
+    (gname, gdata, _) = bases[0]
+    z = gzip.compress(gdata)
+    for tail_ in (b'\xff\xff\xff\x7f', b'\xff\xff\xff\xff', b'\0\0\0\x40junk', r.bytes(9)):
+        raw_cases.append((gname + '.gz', z + tail_, ['--file', '@' + gname + '.gz', 'cat'], 'valid-gz', gname[gname.index('.'):]))
+        raw_cases.append((gname + '.gz', z[:-4] + tail_[:4], ['--file', '@' + gname + '.gz', 'cat'], 'truncated-gz', gname[gname.index('.'):]))
+    run_memory_limited(ctx, raw_cases)
     for kind_build in ('asan', 'asan-ndebug'):
         impl = ctx.build(kind_build)
         cases = []
@@ -211,6 +245,49 @@ def run(ctx):
             elif i['exit'] != 0 and not i['err']:
                 ctx.violation('silent-failure:%s' % next((a.decode('latin-1') for a in c.real_argv if a.decode('latin-1') in [x[0] for x in CMDS]), '?'),
                               'exit status %d with nothing on stderr (%s)' % (i['exit'], ' '.join(a.decode('latin-1')[-30:] for a in c.real_argv[-3:])), rp)
+
+
+def run_memory_limited(ctx, raw_cases):
+    """The same hostile inputs through the plain release build with 768 MiB of address space: no legitimate run needs that
+    much (compressed images are inflated to a temporary file), so running out of memory means an allocation was sized by the file."""
+    import resource
+    import subprocess
+    import tempfile
+    import shutil
+    import concurrent.futures as cf
+    impl = ctx.build('rel')
+    picked = [rc for rc in raw_cases if rc[0] and (rc[3].startswith(('header-field', 'header-mutation', 'truncated', 'random')) or rc[3].endswith('-gz'))]
+    root = tempfile.mkdtemp(prefix='beebverif-c07m-')
+    limit = 768 * 1024 * 1024
+
+    def one(item):
+        k, (fname, content, argv, kind, ext) = item
+        d = os.path.join(root, 'm%d' % k)
+        os.makedirs(os.path.join(d, 'out'))
+        with open(os.path.join(d, fname), 'wb') as f:
+            f.write(content)
+        av = [os.path.join(d, a[1:]) if a.startswith('@') else a for a in argv]
+        try:
+            p = subprocess.run([impl['dfs']] + av, cwd=d, capture_output=True, timeout=60,
+                               preexec_fn=lambda: resource.setrlimit(resource.RLIMIT_AS, (limit, limit)))
+            return (fname, content, av, kind, p.returncode, p.stderr)
+        except subprocess.TimeoutExpired:
+            return (fname, content, av, kind, -999, b'')
+    try:
+        with cf.ThreadPoolExecutor(max_workers=16) as ex:
+            results = list(ex.map(one, enumerate(picked)))
+    finally:
+        shutil.rmtree(root, ignore_errors=True)
+    for (fname, content, av, kind, rc, err) in results:
+        ctx.oracle_cases += 1
+        ctx.count('memory-limited.' + kind)
+        ctx.case(('mem', fname, tuple(av[-2:]), hash(content)), True)
+        low = err.lower()
+        if b'bad_alloc' in low or b'cannot allocate' in low or b'out of memory' in low or rc in (-6, -9, -11, 134, 137, 139):
+            ctx.violation('allocation-sized-by-file:%s' % fname.split('.', 1)[-1],
+                          'with 768 MiB of address space dfs ran out of memory on a %d-byte %s image (rc=%d, stderr %r): an allocation is driven by a size declared in the file' % (
+                              len(content), kind, rc, err[-160:]),
+                          {'argv': av, 'files': {fname: content.hex()[:400000]}, 'rlimit_as': limit, 'exit': rc, 'stderr': err[-400:].decode('latin-1')})
 
 
 def crash_site(err):
